@@ -674,11 +674,16 @@ def epnp_trace(refine, n, bshape, seeds):
     K = torch.tensor(np.stack([i[2] for i in insts]))
     excs = [""] * len(seeds)
     nanr, nanm = np.full(7, np.nan), np.full((4, 4), np.nan)
-    if bshape == "single":
+    if bshape in ("single", "override"):
         rows, mats = [], []
         for i in range(len(seeds)):
             try:
-                sol = pp.module.EPnP(intrinsics=K[i], refine=refine)(pw[i], px[i])
+                if bshape == "override":   # the intrinsics given to the call take precedence over the module's default
+                    Kd = K[i].clone()
+                    Kd[0, 0], Kd[1, 1], Kd[0, 2] = Kd[0, 0] * 1.7, Kd[1, 1] * 0.6, Kd[0, 2] + 3.0
+                    sol = pp.module.EPnP(intrinsics=Kd, refine=refine)(pw[i], px[i], K[i])
+                else:
+                    sol = pp.module.EPnP(intrinsics=K[i], refine=refine)(pw[i], px[i])
                 rows.append(sol.tensor().detach().numpy())
                 mats.append(sol.matrix().detach().numpy())
             except Exception as ex:
@@ -711,7 +716,9 @@ def epnp_traces(ctx, per):
     traces = []
     for refine in (True, False):
         for n in (6, 7, 8, 10, 20, 50, 100):
-            for bshape in ("single", "batch"):
+            for bshape in ("single", "batch", "override"):
+                if bshape == "override" and n not in (6, 10, 50):
+                    continue
                 seeds = [ctx.rng.randrange(1 << 30) for _ in range(per)]
                 traces.append(epnp_trace(refine, n, bshape, seeds))
     return traces
